@@ -419,10 +419,17 @@ func (m *MonC04) OnEnd(w *World) []Violation {
 			case "call", "auth", "new":
 				if !r.IsError && r.ResRID != "" && !r.ResRootErr {
 					root = r.ResRID
-					// the verdict is needed from the moment the call/auth answer arrived
+					// the verdict is needed from the moment the request's own call/auth
+					// answer arrived (other calls of the connection may be answered meanwhile)
+					cname, _ := w.expandRID(c, r.RID)
+					own := r.Action + "." + cname + "." + r.CMethod
+					if r.Action == "new" {
+						own = "call." + cname + ".new"
+					}
 					for _, e := range w.Log()[r.SentT:r.RespT] {
-						if e.Kind == "mq_complete" && e.CID == c.CID && (strings.HasPrefix(e.Subject, "call.") || strings.HasPrefix(e.Subject, "auth.")) {
+						if e.Kind == "mq_complete" && e.CID == c.CID && e.Subject == own {
 							t0 = e.T
+							break
 						}
 					}
 				}
@@ -436,9 +443,12 @@ func (m *MonC04) OnEnd(w *World) []Violation {
 				for _, a := range cands {
 					if a.HasRes && a.Get {
 						granting = a
-						if a.T >= t0 {
+						// (an answer held back by a query-event lock reaches the connection
+						// at the unlock: until then its request counts as in flight)
+						aT := b.effT(name, a.T)
+						if aT >= t0 {
 							valid = a
-						} else if tr := b.triggerBetween(c.CID, name, a.T, t0, true); tr == nil {
+						} else if tr := b.triggerBetween(c.CID, name, aT, t0, true); tr == nil {
 							valid = a
 							m.class("cached_verdict_used")
 						} else {
@@ -786,6 +796,15 @@ func (m *MonC06) OnEnd(w *World) []Violation {
 				for k := range b.answers {
 					a := &b.answers[k]
 					if a.CID == c.CID && a.Name == name && a.Query == q && a.ReqT < tr.T && a.T > tr.T {
+						if b.effT(name, a.T) != a.T {
+							// the answer waited behind a query-event lock and is processed at
+							// the unlock together with whatever else waited there (the get
+							// answer whose hand-over ends the deferral may come first): the
+							// order inside that step is not visible, riding is accepted
+							rq = &log[a.ReqT]
+							m.class("recheck_rides_on_answer_behind_lock")
+							break
+						}
 						if w.stepOfT(a.T) > w.stepOfT(tr.T) && m.deferredBefore(w.stepOfT(a.T), c.CID, fullRID) {
 							// (not the last word: a call made before the subscription existed
 							// has an access request of its own in flight, and the
